@@ -26,13 +26,13 @@ import (
 	"github.com/tink-crypto/tink-go/v2/internal/verifharness/kslib"
 )
 
-var flagOnly = flag.String("only", "", "comma separated sections to run: prims,subtle,multi,handles,keys,registry (default all)")
+var flagOnly = flag.String("only", "", "comma separated sections to run: registry,handles,keys,prims,multi,legacy,subtle (default all)")
 var flagKeys = flag.String("keys", "", "substring filter on pool key names (debugging)")
 
 var logw = os.Stderr
 
 func want(section string) bool {
-	if *flagOnly == "" {
+	if *flagOnly == "" || section == "shared-objects" {
 		return true
 	}
 	for _, s := range strings.Split(*flagOnly, ",") {
@@ -97,13 +97,25 @@ func child() {
 	}
 	// handle / key / registry sections come first: they need handles and registry paths that no
 	// sequential code has touched more than necessary
-	lanes := 6
+	lanes := 8
 	section("registry", func() { e.registrySection(pool, its) })
-	section("handles", func() { e.runJobs(e.handleJobs(its), lanes) })
-	section("keys", func() { e.runJobs(e.keyJobs(its), lanes) })
-	section("prims", func() { e.runJobs(e.primJobs(its), lanes) })
-	section("multi", func() { e.runJobs(e.multiJobs(its), lanes) })
-	section("subtle", func() { e.runJobs(e.subtleJobs(), lanes) })
+	// everything else is one queue of jobs over eight lanes (most expensive first); the reports
+	// are replayed in this order
+	section("shared-objects", func() {
+		var jobs []job
+		add := func(name string, f func() []job) {
+			if want(name) {
+				jobs = append(jobs, f()...)
+			}
+		}
+		add("handles", func() []job { return e.handleJobs(its) })
+		add("keys", func() []job { return e.keyJobs(its) })
+		add("prims", func() []job { return e.primJobs(its) })
+		add("multi", func() []job { return e.multiJobs(its) })
+		add("legacy", func() []job { return e.legacyJobs() })
+		add("subtle", func() []job { return e.subtleJobs() })
+		e.runJobs(jobs, lanes)
+	})
 
 	var names []string
 	for k := range timings {
